@@ -37,7 +37,6 @@ Verdicts
                     vectors overwritten by the monitor.
 """
 import contextlib
-import copy
 import hashlib
 import json
 import os
@@ -84,7 +83,7 @@ REQUIRED_REACH = ANCHORS
 REQUIRED_ORACLES = ["flow.repeat", "flow.schedule", "flow.fresh-process", "single.repeat", "independence.flow",
                     "independence.single", "re-estimate", "noise.physical", "noise.depolarized-mix",
                     "noise.lindbladian-reproducible", "physicality-check"]
-MIN_EVALS = {"quick": 8000, "thorough": 40000}
+MIN_EVALS = {"quick": 8000, "thorough": 60000}
 WATCHDOG = {"quick": 900, "thorough": 3600}
 ASSUMPTIONS = [
     "joblib/loky start worker processes that import quara from the tree under test (probed in every worker shard)",
@@ -1343,7 +1342,7 @@ def shards(tier, seed):
     # flows under workers: 8 shards (4 types x worker count 2 / 4); the two shards of a type share their settings
     for t in TYPES:
         heavy = t in ("gate", "mprocess")
-        n = (2 if t == "state" else 1) if q else {"state": 6, "povm": 4, "gate": 3, "mprocess": 3}[t]
+        n = (2 if t == "state" else 1) if q else {"state": 6, "povm": 3, "gate": 3, "mprocess": 3}[t]
         for k in (2, 4):
             noises = ["depolarized", "lindbladian"] if not heavy or not q else (["depolarized"] if t == "gate" else ["lindbladian"])
             out.append({"kind": "flow", "type": t, "workers": k, "group": f"w:{t}", "n": n, "noises": noises,
